@@ -372,6 +372,42 @@ func markJuxt(n *Node, mode int) {
 type FloatCase struct {
 	Tree *Node  `json:"tree"`
 	Text string `json:"text"`
+	// Order: the binary operators in ascending priority, if not the order of example/minimal.go
+	// (any declared priorities: the prefix '-' may have its binary twin at the lowest priority)
+	Order []string `json:"operator_order,omitempty"`
+}
+
+var floatOps = map[string]func(a, b float64) (float64, error){
+	"=": func(a, b float64) (float64, error) { return fromBool(a == b), nil },
+	"<": func(a, b float64) (float64, error) { return fromBool(a < b), nil },
+	">": func(a, b float64) (float64, error) { return fromBool(a > b), nil },
+	"+": func(a, b float64) (float64, error) { return a + b, nil },
+	"-": func(a, b float64) (float64, error) { return a - b, nil },
+	"*": func(a, b float64) (float64, error) { return a * b, nil },
+	"/": func(a, b float64) (float64, error) { return a / b, nil },
+	"^": func(a, b float64) (float64, error) { return math.Pow(a, b), nil },
+}
+
+// newFloatOrdered: the float configuration with the binary operators declared in the
+// given order (ascending priority).
+func newFloatOrdered(opt bool, order []string) *funcGen.FunctionGenerator[float64] {
+	g := funcGen.New[float64]().SetComfort(true).AddConstant("pi", math.Pi)
+	for _, op := range order {
+		g.AddSimpleOp(op, false, floatOps[op])
+	}
+	g.AddUnaryFunc("-", func(a float64) (float64, error) { return -a, nil }).
+		AddSimpleFunction("sqrt", math.Sqrt).
+		AddSimpleFunction("sqr", func(x float64) float64 { return x * x }).
+		SetToBool(func(c float64) (bool, bool) { return c != 0, true }).
+		SetNumberParser(parser2.NumberParserFunc[float64](func(n string) (float64, error) { return strconv.ParseFloat(n, 64) }))
+	if !opt {
+		g.SetOptimizer(nil)
+	}
+	return g
+}
+
+func orderedGens(order []string) []floatGen {
+	return []floatGen{{fmt.Sprintf("operators %v (opt=true)", order), newFloatOrdered(true, order)}, {fmt.Sprintf("operators %v (opt=false)", order), newFloatOrdered(false, order)}}
 }
 
 type floatStats struct{ evaluated, skipped int }
@@ -549,6 +585,28 @@ func TestPropFloatSampled(t *testing.T) {
 	defer evid.R.Flush()
 	rapid.Check(t, func(t *rapid.T) {
 		depth := rapid.IntRange(3, 5).Draw(t, "depth")
+		if rapid.IntRange(0, 2).Draw(t, "otherOrder") == 0 {
+			// the same operators under other declared priorities
+			depth = rapid.IntRange(1, 4).Draw(t, "depthO")
+			order := rapid.Permutation(floatGrammar.Bin).Draw(t, "order")
+			if rapid.IntRange(0, 2).Draw(t, "minusFirst") == 0 {
+				for i, op := range order {
+					if op == "-" {
+						order[0], order[i] = order[i], order[0]
+					}
+				}
+			}
+			gr := Grammar{Bin: order, UnaryAlsoBinary: floatGrammar.UnaryAlsoBinary}
+			tree := genFloat(t, depth, floatLeaves)
+			applyJuxt(gr, tree)
+			c := FloatCase{Tree: tree, Text: gr.Render(tree), Order: order}
+			var st floatStats
+			if msg := checkFloat(c, orderedGens(order), &st); msg != "" {
+				evid.Fail(t, prop, "float", "", c, "%s", msg)
+			}
+			recordFloat(c, st, "float_sampled_other_priorities")
+			return
+		}
 		tree := genFloat(t, depth, floatLeaves)
 		applyJuxt(floatGrammar, tree)
 		c := FloatCase{Tree: tree, Text: floatGrammar.Render(tree)}
@@ -569,7 +627,11 @@ func TestReplayFloat(t *testing.T) {
 			t.Fatalf("cannot read %s: %v", path, err)
 		}
 		var st floatStats
-		if msg := checkFloat(c, floatGens, &st); msg != "" {
+		gens := floatGens
+		if len(c.Order) > 0 {
+			gens = orderedGens(c.Order)
+		}
+		if msg := checkFloat(c, gens, &st); msg != "" {
 			evid.ReplayFailed(t, path, msg)
 		}
 	}
